@@ -53,7 +53,7 @@ def gen_create(rng, state, weights):
             d = rng.choice(below_dirs)
             picks = [p for p in picks if not p.startswith(d + "/")] + [d]
         for p in picks:
-            args += ["-sf", "@R/" + p]
+            args += ["-sf", _spell(rng, "@R/" + p, weights)]
     else:
         if rng.random() < weights.get("n", 0.12):
             args.append("-n")
@@ -68,7 +68,24 @@ def gen_create(rng, state, weights):
         args += _creator_args(rng)
     if rng.random() < 0.2:
         args.append("-v")
-    return scen.cmd("create", scen.root_arg(root), *args)
+    ra = scen.root_arg(root)
+    if rng.random() < weights.get("spelling", 0.06):
+        ra += rng.choice(["/", "//", "/."])
+    return scen.cmd("create", ra, *args)
+
+
+def _spell(rng, token, weights):
+    """legal but non-canonical spellings of a path below the root: doubled separators, './', 'x/../x'"""
+    if rng.random() >= weights.get("spelling", 0.06) * 2:
+        return token
+    head, rest = token[:2], token[3:]
+    k = rng.randrange(3)
+    if k == 0:
+        return head + "//" + rest
+    if k == 1:
+        return head + "/./" + rest
+    first = rest.split("/")[0]
+    return head + "/" + first + "/../" + rest if "/" in rest else head + "/./" + rest
 
 
 def gen_readonly(rng, state):
